@@ -156,7 +156,30 @@ def main(tier, seed):
             prev = step
     rep.run("OrbaxCheckpointer:cadence-history(3 records from the initial state)", ck_history, fn="OrbaxCheckpointer.record_epoch")
 
+    if tier == "thorough":
+        _crosshair_twin(rep)
     return rep.finish()
+
+
+def _crosshair_twin(rep):
+    """Independent second engine on the cadence step of the REAL OrbaxCheckpointer.record_epoch: CrossHair.  'Confirmed
+    over all paths' / 'Not confirmed' are recorded per twin; only a counterexample (which would contradict the primary
+    engine) makes the run inconclusive."""
+    import os
+    import subprocess
+    import sys
+    here = os.path.dirname(os.path.abspath(__file__))
+    cmd = [sys.executable, "-m", "crosshair", "check", "--report_all", "--per_condition_timeout", "60", os.path.join(here, "crosshair_c20.py")]
+    try:
+        out = subprocess.run(cmd, capture_output=True, text=True, timeout=400, env=dict(os.environ, JAX_PLATFORMS="cpu")).stdout
+    except Exception as ex:  # noqa
+        out = f"crosshair failed: {ex}"
+    lines = [l for l in out.splitlines() if "crosshair_c20.py" in l]
+    counter = [l for l in lines if "false when calling" in l or ": error:" in l]
+    rep.r.extra["crosshair_twin"] = {"cmd": " ".join(cmd[1:]), "confirmed": sum("Confirmed over all paths" in l for l in lines),
+                                     "not_confirmed": sum("Not confirmed" in l for l in lines), "counterexamples": len(counter), "output": out.strip()[-600:]}
+    if counter:
+        rep.r.inconclusive_("OrbaxCheckpointer:cadence:crosshair-twin", "CrossHair reports a counterexample the primary engine does not: " + counter[0][-200:])
 
 
 def replay(path):
